@@ -50,15 +50,17 @@ ASSUMPTIONS = [
     'values are None / bool / int / str over {a,b,c} / lists of those; floats, tuples (divmod), pow, truediv, matmul appear only in the operator-table theorem',
     'an exception is identified by its class; when several sub-expressions fail, the one reported is that of pipeline-order evaluation (object, then operands left to right)',
     '.rx.and_/.rx.or_ and the other helpers are strict functions of their evaluated operands (no short-circuit claimed)',
-    'not modelled: async / generator operations (internal Trigger), plain attribute access (`expr.attr`), slices and nested containers of references as operands, kwargs, raw bound functions (not wrapped in rx) as operands, rx.when/buffer/updating/resolve, batched updates of several parameters',
+    'operands that are containers of references (a list of rx / Parameters / literals, a slice lo:hi with such bounds) are modelled flattened: their references are collected and their values resolved left to right exactly as resolve_ref / resolve_value(recursive) do, and the semantics of the operation packs the values back (Driver/C09.lean pyApply, `#shape` suffix); only for operations (not bind / where / method-call arguments); tuples, dicts and deeper nesting are not generated',
+    'a Parameter(allow_refs=True) holding an expression as a reference (`ref` / `readref` statements): its `_sync_refs` watcher is modelled as a precedence -1 consumer that runs after all invalidations and before the precedence 0 watchers; that the holder mirrors the expression is checked by correspondence and by the oracle, there is no theorem about it; when an exception escapes an update in a program with holders the program ends there (the real dispatch then also skips the invalidation watchers registered after the raising `_sync_refs`, which is not modelled)',
+    'not modelled: async / generator operations (internal Trigger), plain attribute access (`expr.attr`; on the clean tree `m = z.imag; m + 1` resets `m._method` so that `m.rx.value` is then the whole object - verified by hand, outside this model), kwargs, raw bound functions (not wrapped in rx) as operands, rx.when/buffer/updating/resolve, batched updates of several parameters',
     'an input update is atomic for precedence -1 watchers (all invalidations run before any precedence 0 consumer) - checked by correspondence, not proved',
     'operator_table_complete (over the generated RxOps table) lives in the same module as the other theorems: a broken table makes the whole module fail to build, so the evidence then reports every C09 obligation as undischarged, not only that one',
     'the full statement is false of the code (C09_full_refuted); what is proved is C09_partial under H1 (no where result handed to a consumer), H2 (is_equal does not identify different values), H3 (no exception escapes an input update) - the three known findings',
 ]
 RULE = ('corpus + directed prefix (every API form on a root of each type with literal / rx / Parameter operand, error-recovery, shared '
-        'sub-expressions, input as root and operand, bind, where in both branches, watch, None roots, minimal forms of the known findings) '
+        'sub-expressions, input as root and operand, bind, where in both branches, watch, None roots, container operands, reference holders, minimal forms of the known findings) '
         '+ all histories of length <=3 (<=4 thorough) over a fixed alphabet for 5 expression shapes + random typed programs '
-        '(1-6 inputs, <=9 user expressions = <=27 model nodes, 6-28 interleaved create/update/read/watch statements; 15% may hand a '
+        '(1-6 inputs, <=9 user expressions = <=27 model nodes, 6-28 interleaved create/update/read/watch/ref/readref statements, list and slice operands holding references; 15% may hand a '
         'where result to a consumer, 4% cross bool/int updates, 6% ill-typed operations); every statement outcome is compared with the '
         'model and checked by the oracle. non-trivial = applicable program with >=3 oracle-checked steps and a successful read after '
         'an input update; distinct = distinct canonical program')
@@ -824,7 +826,7 @@ def cases(rng, tier, worker, nworkers):
         i += 1
         if i % nworkers == worker:
             yield c
-    n_random = 8000 if tier == 'quick' else 240000 // nworkers
+    n_random = 6000 if tier == 'quick' else 240000 // nworkers
     for _ in range(n_random):
         yield _random_case(rng)
 
@@ -973,14 +975,14 @@ def _failing_index(fail):
 
 
 def _explained_raise(prog, idx, cls):
-    """is the exception escaping the assignment `prog[idx]` the failure of a where-condition or of a watched
-    expression evaluated on the inputs after that assignment?  (plain-Python evaluation)"""
+    """is the exception escaping the assignment `prog[idx]` the failure of a where-condition, of a watched
+    expression or of an expression held as a reference, evaluated on the inputs after that assignment?"""
     sh = _Shadow()
     conds, watched = [], []
     for s in prog[:idx + 1]:
         if s['s'] == 'where':
             conds.append(sh.arg_fn(s['c']))
-        elif s['s'] == 'watch':
+        elif s['s'] in ('watch', 'ref'):
             watched.append(sh.nodes[s['n']])
         _apply_shadow(sh, s)
     for f in conds + watched:
